@@ -242,6 +242,7 @@ package wal
 //@   && (forall k uint64 :: {smhas(s.segments, k)} smhas(s.segments, k) ==> smget(s.segments, k).r != nil)
 //@   && unsealedSeg(smget(s.segments, smmax(s.segments))) && s.tail.base == smmax(s.segments)
 //@   && (s.tail.last == 0 || s.tail.last >= smget(s.segments, smmax(s.segments)).MinIndex)
+//@   && (s.tail.last == 0 ==> smget(s.segments, smmax(s.segments)).MinIndex == smmax(s.segments))
 
 //@ -- the reference model's bounds (property C05), as functions of the state
 //@ predicate FirstOf(s) = ite(smmin(s.segments) == smmax(s.segments) && s.tail.last == 0, 0, smget(s.segments, smmin(s.segments)).MinIndex)
@@ -566,3 +567,26 @@ package wal
 //@   ensures[C03.open-wf] result1 == nil ==> result0 != nil && av(result0.s) != nil && WFS(av(result0.s))
 //@   ensures[C03.open-config] result1 == nil ==> result0.codec != nil && result0.sf != nil && result0.metaDB != nil && result0.metrics != nil && result0.closed == 0
 //@   ensures[C03.appendable] result1 == nil ==> !av(result0.s).tail.sealed
+
+// ---------------------------------------------------------------------------
+// wal.go — StoreLogs
+// ---------------------------------------------------------------------------
+
+//@ func (*WAL).StoreLogs
+//@   props C03 C05 C14
+//@   requires w.metaDB != nil && w.codec != nil && w.sf != nil && w.metrics != nil && av(w.s) != nil && WFS(av(w.s))
+//@   requires[assumed-headroom] Headroom(av(w.s))
+//@   requires forall i int :: 0 <= i && i < len(logs) ==> logs[i] != nil
+//@   requires[assumed-headroom] len(logs) > 0 ==> logs[0].Index < 0xffffffffffffff00
+//@   requires w.closed == 0 ==> (w.triggerRotate != nil && !closed(w.triggerRotate))
+//@   assigns *
+//@   loop 1 invariant -1 <= rangeindex && rangeindex < len(logs) && len(encoded) == len(logs)
+//@   loop 1 invariant forall j int :: 0 <= j && j <= rangeindex ==> encoded[j].Index == logs[j].Index
+//@   loop 1 invariant rangeindex >= 0 ==> lastIdx == logs[rangeindex].Index
+//@   loop 1 invariant rangeindex == -1 && old(LastOf(av(w.s))) > 0 ==> lastIdx == old(LastOf(av(w.s)))
+//@   loop 1 invariant rangeindex >= 0 && old(LastOf(av(w.s))) > 0 ==> logs[0].Index == old(LastOf(av(w.s))) + 1
+//@   ensures[C14.storelogs-closed] old(w.closed) != 0 ==> result == types.ErrClosed && g_commits == old(g_commits)
+//@   ensures[C05.store-empty-batch] old(w.closed) == 0 && len(logs) == 0 ==> result == nil && g_commits == old(g_commits)
+//@   ensures[C03.published-state-wf] av(w.s) != nil && WFS(av(w.s))
+//@   ensures[C05.store-last] old(w.closed) == 0 && result == nil && len(logs) > 0 ==> LastOf(av(w.s)) == logs[len(logs)-1].Index
+//@   ensures[C05.store-monotone] old(w.closed) == 0 && result == nil && len(logs) > 0 && old(LastOf(av(w.s))) > 0 ==> logs[0].Index == old(LastOf(av(w.s))) + 1
